@@ -5,9 +5,11 @@ import z3
 import gen, lang, tv
 from clif import PathCut
 
-WORK = os.path.join(os.path.dirname(os.path.dirname(os.path.abspath(__file__))), "build", "tv")
+# one scratch directory per checking process (several checks may run at the same time)
+WORK = os.path.join(os.path.dirname(os.path.dirname(os.path.abspath(__file__))), "build", "tv", f"w{os.getpid()}")
 
 _PROGS = {}
+_OWNER = os.getpid()
 
 
 def _check(args):
@@ -155,8 +157,23 @@ def confirm(prog, script, finding):
                 return False, {"want": want, "got": got}
         return (int(want, 16) != int(got, 16) if got != "unit" else False), {"want": want, "got": got}
     if kind == "trace":
+        def render(x):
+            parts = []
+            for p in x[1]:
+                if isinstance(p, str):
+                    parts.append(p)
+                else:
+                    v = z3.simplify(p[2])
+                    if p[1] == "bool":
+                        parts.append("true" if z3.is_true(v) else "false")
+                    else:
+                        parts.append(str(v.as_signed_long() if lang.INTS[p[1]][1] else v.as_long()))
+            return '"' + "".join(parts) + '"'
         want = []
         for (n, a) in trace:
+            if a and isinstance(a[0], tuple) and a[0][0] == "str":
+                want.append(n + " " + render(a[0]))
+                continue
             want.append(n + " " + " ".join(fmt_val("bool", x) if z3.is_bool(x) else (hex(z3.simplify(z3.fpToIEEEBV(x)).as_long()) if z3.is_fp(x) else hex(z3.simplify(x).as_long())) for x in a))
         got = []
         for e in real["events"]:
@@ -174,6 +191,8 @@ def run(progs, modes_filter, tier, jobs=14, k_loop=3, depth=4, timeout_ms=10000)
     shutil.rmtree(WORK, ignore_errors=True)
     os.makedirs(os.path.join(WORK, "src"))
     os.makedirs(os.path.join(WORK, "dump"))
+    import atexit
+    atexit.register(lambda: shutil.rmtree(WORK, ignore_errors=True) if os.getpid() == _OWNER else None)
     paths = []
     for p in progs:
         name = p.meta["name"]
@@ -182,6 +201,7 @@ def run(progs, modes_filter, tier, jobs=14, k_loop=3, depth=4, timeout_ms=10000)
         open(f, "w").write(lang.program_src(p))
         paths.append(f)
     t0 = time.time()
+    tv.discover_to_string(os.path.join(WORK, "probe"))      # before the pool forks: workers inherit the table
     tv.dump_programs(paths, os.path.join(WORK, "dump"))
     t_dump = time.time() - t0
     work = [(p.meta["name"], p.meta["modes"] & modes_filter, k_loop, depth, timeout_ms) for p in progs]
